@@ -584,8 +584,14 @@ func osIsNotExist(e *Engine, _ *frame, _ token.Pos, a []Value) Value {
 		if strings.HasSuffix(ts, "zzNotExistError") {
 			return term.True
 		}
-		if p, ok := err.V.(*Value); ok && p != nil && p == e.notExist {
-			return term.True
+		for _, pn := range []string{"io/fs", "internal/oserror", "os"} {
+			if pkg := e.prog.ImportedPackage(pn); pkg != nil {
+				if g := pkg.Var("ErrNotExist"); g != nil {
+					if want, ok := (*e.global(g)).(Iface); ok && want.T != nil && e.equalVals(err, want).IsTrue() {
+						return term.True
+					}
+				}
+			}
 		}
 		// *fs.PathError{Op, Path, Err}
 		if strings.HasSuffix(ts, "fs.PathError") || strings.HasSuffix(ts, "os.PathError") {
